@@ -287,7 +287,7 @@ func NewEvaluator(p *Program, cfg EvalConfig) *Evaluator {
 		cfg.MaxVisits = 2
 	}
 	if cfg.MaxPaths == 0 {
-		cfg.MaxPaths = 20000
+		cfg.MaxPaths = 80000
 	}
 	if cfg.MaxDepth == 0 {
 		cfg.MaxDepth = 6
@@ -1183,9 +1183,31 @@ func (ev *Evaluator) runState(st *State) (*Path, []*State) {
 				}
 				cases = append(cases, c)
 			}
-			for choice := total - 1; choice >= 0; choice-- {
+			// a case on a nil channel can never proceed: it is not a choice, and it is not part of the wait the rules see
+			var feasible []int
+			var live []SelCase
+			liveIdx := map[int]int{}
+			for i := range in.States {
+				if cases[i].Chan.IsNilConst() || st.Facts.Truth(ev.TS, ev.TS.Cmp("==", cases[i].Chan, ev.TS.Nil(nil))) == triT {
+					continue
+				}
+				liveIdx[i] = len(live)
+				live = append(live, cases[i])
+				feasible = append(feasible, i)
+			}
+			if len(live) == n {
+				live = cases
+			}
+			if total > n {
+				feasible = append(feasible, n)
+			}
+			if len(feasible) == 0 {
+				return &Path{State: st, Exit: ExitCut, CutAt: fr.block}, forks // blocks for ever
+			}
+			for k := len(feasible) - 1; k >= 0; k-- {
+				choice := feasible[k]
 				s2 := st
-				if choice > 0 {
+				if k > 0 {
 					s2 = st.clone()
 				}
 				f2 := s2.top()
@@ -1193,7 +1215,11 @@ func (ev *Evaluator) runState(st *State) (*Path, []*State) {
 				if choice == n {
 					idx = -1
 				}
-				e := ev.emit(s2, &Event{Kind: EvSelect, Cases: cases, Chosen: idx, Instr: in})
+				shown := idx
+				if idx >= 0 && len(live) != n {
+					shown = liveIdx[idx]
+				}
+				e := ev.emit(s2, &Event{Kind: EvSelect, Cases: live, Chosen: shown, Instr: in})
 				tup := []*T{ev.TS.LinConst(int64(idx), types.Typ[types.Int]), ev.TS.Bool(true)}
 				if idx >= 0 && in.States[idx].Dir == types.RecvOnly {
 					tup[1] = ev.fresh(s2, "res", types.Typ[types.Bool], in)
@@ -1215,7 +1241,7 @@ func (ev *Evaluator) runState(st *State) (*Path, []*State) {
 				}
 				f2.env[in] = ev.TS.intern(&T{Op: "tuple", Args: tup})
 				f2.pc++
-				if choice > 0 {
+				if k > 0 {
 					forks = append(forks, s2)
 				}
 			}
@@ -1929,6 +1955,17 @@ func (ev *Evaluator) doCall(st *State, fr *Frame, c *ssa.CallCommon, instr ssa.I
 					if f.fn == callee.Parent() {
 						inline = true
 					}
+				}
+			}
+			// a closure made by a helper the reviewed tree does not have (a table of sources, an adapter factory) is
+			// part of the restructuring: its value is known, so it is evaluated in place
+			if !inline && !isDefer && callee.Parent() != nil && !ev.Cfg.KeepHandedClosures {
+				par := callee.Parent()
+				for par.Parent() != nil {
+					par = par.Parent()
+				}
+				if _, known := refParamNames(ev.P.CanonFuncName(par)); !known && ev.P.InScope[par] {
+					inline = true
 				}
 			}
 		} else if ev.Cfg.Inline != nil {
